@@ -6,10 +6,10 @@ package query
 
 import (
 	"fmt"
-	"os"
-	"strconv"
 	"math/rand/v2"
+	"os"
 	"slices"
+	"strconv"
 	"strings"
 	"testing"
 
@@ -85,18 +85,18 @@ func vfC22Configs(r *rand.Rand, q *vfQuery, cols, scalar []string, n int) []vfCf
 
 type vfC22Witness struct {
 	Seed, Shard, DB, Case int
-	Query               string
-	Config              string
-	Strategy            string
-	Database            []string
-	ModelColumns        []string
-	EngineColumns       []string
-	OnlyInModel         []string
-	OnlyInEngine        []string
-	ModelRows           int
-	EngineRows          int
-	Note                string
-	Stack               string `json:",omitempty"`
+	Query                 string
+	Config                string
+	Strategy              string
+	Database              []string
+	ModelColumns          []string
+	EngineColumns         []string
+	OnlyInModel           []string
+	OnlyInEngine          []string
+	ModelRows             int
+	EngineRows            int
+	Note                  string
+	Stack                 string `json:",omitempty"`
 }
 
 func TestVerifC22(t *testing.T) {
@@ -224,7 +224,9 @@ func vfC22Check(rep *vk.Report, d *vfDB, dbi, qi int, q *vfQuery, r *rand.Rand, 
 		}
 		return w
 	}
-	key := func(cfg vfCfg) string { return fmt.Sprintf("%s  [%s]  db=%d/%d/%d", text, cfg, vk.Seed(), vk.Shard(), dbi) }
+	key := func(cfg vfCfg) string {
+		return fmt.Sprintf("%s  [%s]  db=%d/%d/%d", text, cfg, vk.Seed(), vk.Shard(), dbi)
+	}
 	for ci, cfg := range vfC22Configs(r, q, cols, vfColNames(vfScalarCols(q.root.out)), ncfg) {
 		res, stage, p, stack := vfExec(d, text, cfg, th)
 		if p != nil {
@@ -315,14 +317,6 @@ func vfC22Check(rep *vk.Report, d *vfDB, dbi, qi int, q *vfQuery, r *rand.Rand, 
 			rep.Count("order_checks", 1)
 		}
 	}
-}
-
-// vfHasNode reports whether the tree (including view definitions) has a node satisfying f.
-func vfHasNode(n *vfNode, f func(*vfNode) bool) bool {
-	if n == nil {
-		return false
-	}
-	return f(n) || vfHasNode(n.src, f) || vfHasNode(n.src2, f) || vfHasNode(n.def, f)
 }
 
 // vfC22Diagnose recognises the engine defects that were analysed (see known_findings.d/C22.jsonl) from the
